@@ -427,3 +427,31 @@ def nary5mix_profile(env, compound=False, quant=True, natoms=None):
     p.op("and5", [BOOL] * 5, BOOL, lambda m, *t: m.And(*t))
     p.op("or5", [BOOL] * 5, BOOL, lambda m, *t: m.Or(*t))
     return p
+
+
+def bigarr_profile(env):
+    """array literals beyond a handful of cells: six and twelve cells over Int, and two literals over BV3 that assign
+    every index (different defaults, same array); reads at every index, equalities, stores"""
+    p = Profile("bigarr", env)
+    m = p.m
+    B3 = ("BV", 3)
+    AI, AB = ("Array", INT, INT), ("Array", B3, B3)
+    it, bt = mk_type(env, INT), mk_type(env, B3)
+    six = m.Array(it, m.Int(0), dict((m.Int(i), m.Int(10 + i)) for i in range(6)))
+    twelve = m.Array(it, m.Int(1), dict((m.Int(i), m.Int(20 + i)) for i in range(12, 0, -1)))
+    p.leaf(AI, six, twelve, p.sym("A", AI))
+    p.leaf(INT, p.sym("i", INT), *[m.Int(i) for i in range(14)])
+    full0 = m.Array(bt, m.BV(0, 3), dict((m.BV(i, 3), m.BV((i * 3) % 8, 3)) for i in range(8)))
+    full1 = m.Array(bt, m.BV(1, 3), dict((m.BV(i, 3), m.BV((i * 3) % 8, 3)) for i in range(8)))
+    part = m.Array(bt, m.BV(0, 3), dict((m.BV(i, 3), m.BV((i * 3) % 8, 3)) for i in range(1, 6)))
+    p.leaf(AB, full0, full1, part, p.sym("M", AB))
+    p.leaf(B3, p.sym("u", B3), *[m.BV(i, 3) for i in range(8)])
+    p.op("select", [AI, INT], INT, lambda m, a, i: m.Select(a, i))
+    p.op("selectb", [AB, B3], B3, lambda m, a, i: m.Select(a, i))
+    p.op("eqi", [INT, INT], BOOL, lambda m, a, b: m.Equals(a, b))
+    p.op("eqb", [B3, B3], BOOL, lambda m, a, b: m.Equals(a, b))
+    p.op("eqa", [AI, AI], BOOL, lambda m, a, b: m.Equals(a, b))
+    p.op("eqab", [AB, AB], BOOL, lambda m, a, b: m.Equals(a, b))
+    p.op("store", [AI, INT, INT], AI, lambda m, a, i, v: m.Store(a, i, v))
+    p.op("storeb", [AB, B3, B3], AB, lambda m, a, i, v: m.Store(a, i, v))
+    return p
